@@ -91,7 +91,7 @@ RULES = ["@{bin}/foo rPx,", "/etc/foo r,", "owner @{HOME}/.cache/foo/{,**} rw,",
 
 
 def gen_profile(rng, i):
-    """Generated profile with only/exclude markers; paragraphs always end with a blank line."""
+    """Generated profile with only/exclude markers; paragraphs always end with a blank line (and may be empty)."""
     lines = ["abi <abi/4.0>,", "", "include <tunables/global>", "", "@{exec_path} = @{bin}/g%d" % i,
              "profile g%d @{exec_path} {" % i, "  include <abstractions/base>", ""]
     feats = set()
@@ -129,6 +129,11 @@ def gen_profile(rng, i):
                 prev_marker = mk
                 lines.append(indent + mk)
                 feats.add("paragraph")
+                if rng.random() < 0.08:
+                    # a marker that guards nothing (what is left when the guarded rules are deleted and the marker is forgotten):
+                    # the paragraph that follows is not guarded
+                    feats.add("empty-paragraph")
+                    rules = []
                 for r in rules:
                     lines.append(indent + r)
             lines.append("")
